@@ -24,6 +24,10 @@ func symEvent() (*Event, *fPayload, [2]string, [2]string, int) {
 		// no payload at all: the document still has a payload member (null)
 		e.Payload = nil
 	}
+	if nondetBool() {
+		// an event not made by a Broker may carry the zero creation time: that is the time the document reports
+		e.CreatedAt = time.Time{}
+	}
 	var ks, vs [2]string
 	n := 0
 	if nondetBool() {
